@@ -1,6 +1,7 @@
 """Engine: scheduling of worlds, forking on symbolic decisions, merging at loop heads, solver
 queries, statistics.  See DESIGN §2."""
 import hashlib
+import heapq
 import inspect
 import time
 import types
@@ -17,6 +18,60 @@ from . import prelude
 
 class Budget(Exception):
     pass
+
+
+class GNode:
+    """lazy guard formula: converted to z3 only when a query needs it (memoised per node)"""
+    __slots__ = ("kind", "a", "b", "z")
+
+    def __init__(self, kind, a, b=None):
+        self.kind, self.a, self.b, self.z = kind, a, b, None
+
+    def __deepcopy__(self, memo):
+        return self
+
+
+_DOMC = {}
+
+
+def dom_z3(var, dom):
+    k = (var.idx, dom)
+    r = _DOMC.get(k)
+    if r is None:
+        r = _DOMC[k] = var.domain_constraint(dom)
+    return r
+
+
+def g_z3(n):
+    """iterative conversion of a guard DAG to z3"""
+    if n is None:
+        return z3.BoolVal(True)
+    if n.z is not None:
+        return n.z
+    stack = [n]
+    while stack:
+        x = stack[-1]
+        if x.z is not None:
+            stack.pop()
+            continue
+        if x.kind == "z3":
+            x.z = x.a
+            stack.pop()
+        elif x.kind == "dom":
+            x.z = dom_z3(x.a, x.b)
+            stack.pop()
+        elif x.kind == "and" or x.kind == "or":
+            kids = x.a
+            pend = [c for c in kids if c.z is None]
+            if pend:
+                stack.extend(pend)
+                continue
+            zs = [c.z for c in kids]
+            x.z = (z3.And(zs) if x.kind == "and" else z3.Or(zs)) if len(zs) > 1 else zs[0]
+            stack.pop()
+        else:
+            raise EngineError(x.kind)
+    return n.z
 
 
 class Engine:
@@ -131,17 +186,21 @@ class Engine:
             self.stats["unsat"] += 1
         return (r == z3.sat), m
 
-    def guard(self, W):
-        """exact z3 guard of a world"""
+    def gnode(self, W):
+        """exact guard of a world as a lazy node (None = True)"""
         parts = [] if W.g is None else [W.g]
         for var, dom in W.dom.items():
             if W.dom_base.get(var) != dom:
-                parts.append(var.domain_constraint(dom))
+                parts.append(GNode("dom", var, dom))
         if not parts:
-            return z3.BoolVal(True)
+            return None
         if len(parts) == 1:
             return parts[0]
-        return z3.And(parts)
+        return GNode("and", parts)
+
+    def guard(self, W):
+        """exact z3 guard of a world"""
+        return g_z3(self.gnode(W))
 
     def query(self, W, cond):
         """is `guard(W) and cond` satisfiable?  cond: bool / SBool / z3"""
@@ -217,13 +276,14 @@ class Engine:
         return []  # infeasible world
 
     def _add(self, W, e, k, val):
-        W.g = e if W.g is None else z3.And(W.g, e)
+        n = GNode("z3", e)
+        W.g = n if W.g is None else GNode("and", [W.g, n])
         W.decided[k] = val
 
     def merge_into(self, A, B):
         """A := A or B (same state key)"""
-        ga, gb = self.guard(A), self.guard(B)
-        A.g = z3.Or(ga, gb)
+        ga, gb = self.gnode(A), self.gnode(B)
+        A.g = None if (ga is None or gb is None) else GNode("or", [ga, gb])
         dom = {}
         for var in set(A.dom) | set(B.dom):
             d = A.dom.get(var, var.full) | B.dom.get(var, var.full)
@@ -236,6 +296,24 @@ class Engine:
         A.maxdepth = max(A.maxdepth, B.maxdepth)
         self.stats["merges"] += 1
 
+    def drop_dead(self, W):
+        """delete dead fast locals of every frame (sound: they cannot be read again)"""
+        top = W.frames[-1]
+        for F in W.frames:
+            live = F.ci.liveness()
+            if F.pc >= len(live):
+                continue
+            keep = live[F.pc]
+            if F is not top:
+                h = F.ci.handler(F.lasti)
+                if h is not None:
+                    keep = keep | live[h[0]]
+            if F.gen is not None:
+                continue
+            dead = [nm for nm in F.fast if nm not in keep]
+            for nm in dead:
+                del F.fast[nm]
+
     # ------------------------------------------------------------------ running
     def run(self, fn, args=(), kwargs=None, guard=None):
         """Symbolically execute fn(*args, **kwargs); returns the list of final worlds
@@ -243,7 +321,7 @@ class Engine:
         if isinstance(fn, types.FunctionType) and not self.I.interpretable_func(fn):
             self.extra_interp.add(fn)
         W0 = World()
-        W0.g = None if guard is None else b_z3(guard)
+        W0.g = None if guard is None else GNode("z3", b_z3(guard))
         F0 = IP.Frame(IP.CodeInfo.of(_trampoline.__code__), IP.gref(globals()))
         # call through push_frame directly
         W0.frames = []
@@ -257,19 +335,23 @@ class Engine:
             return [W0]
         finished = {}
         parked = {}
+        heap = []
+        seq = 0
         work = [W0]
         I = self.I
         stats = self.stats
         deadline = None if self.timeout is None else time.time() + self.timeout
         while work or parked:
             if not work:
-                # expand the least-advanced parked world(s)
-                best = min(parked.values(), key=lambda w: w._prog)
-                for k in [k for k, w in parked.items() if w._prog == best._prog]:
-                    w = parked.pop(k)
-                    w.resume = True
-                    work.append(w)
-                    stats["states"] += 1
+                # expand the least-advanced parked world
+                while True:
+                    prog, _, k = heapq.heappop(heap)
+                    w = parked.pop(k, None)
+                    if w is not None:
+                        break
+                w.resume = True
+                work.append(w)
+                stats["states"] += 1
             n_live = len(work) + len(parked)
             if n_live > stats["max_worlds"]:
                 stats["max_worlds"] = n_live
@@ -290,14 +372,16 @@ class Engine:
                     if self.merge and not W.resume:
                         F = W.frames[-1]
                         if self.merge_filter is None or self.merge_filter(F.ci):
+                            self.drop_dead(W)
                             key = self.keyer.key(W)
                             prog = self.progress_fn(W) if self.progress_fn else (self.keyer.progress, W.steps)
                             stats["parks"] += 1
                             if key in parked:
                                 self.merge_into(parked[key], W)
                             else:
-                                W._prog = prog
                                 parked[key] = W
+                                seq += 1
+                                heapq.heappush(heap, (prog, seq, key))
                             break
                 W.resume = False
                 if W.steps > self.step_limit:
